@@ -461,6 +461,9 @@ def r3_5(ctx, rc):
     from .c09 import r9_6
     r9_6(ctx, rc)
     r14_4(ctx, rc)
+    # what rollback keeps and removes (R2.8): a directory of the failed
+    # build that is kept occupies the path of a backed-up foreign file
+    c02.r2_8(ctx, rc)
 
 
 RULES = [
